@@ -87,7 +87,9 @@ Value& SUBRAWExpression::value(Context & ctx) const
     if (c == 0)
       return val;
     a = (a < 0 ? a + c : a);
-    b = std::max<int64_t>(std::min(b, c - a), 0L);
+    /* a start still negative selects nothing; c - a would overflow for a start
+     * near the smallest integer */
+    b = (a < 0 ? 0 : std::max<int64_t>(std::min(b, c - a), 0L));
     if (a >= 0 && b > 0)
     {
       if (val.lvalue())
